@@ -48,6 +48,12 @@ OKRULE = "table(sub) cA > cB; endtable;\n"
 DEEP_LIST = H + "table(glyph) cB = glyphid(7); cA = glyphid(3) {" + "; ".join("q%d = %d" % (i, i % 100) for i in range(70000)) + "}; endtable;\ntable(sub) cA > cB; endtable;\n"
 
 CORPUS = [
+    # renaming a font whose family name is also given in a language that sorts before English under (3,1)
+    ("rename-piglatin-with-german-family-name", "", ["-q", "p.gdl", "in.ttf", "out.ttf", "Renamed Font"], {"special": "piglatin-german-family"}),
+    ("rename-family-name-in-two-languages", H + G + OKRULE, ["-q", "p.gdl", "in.ttf", "out.ttf", "Renamed Font"],
+     {"name_platforms": [(1, 0, 0), (3, 1, 1031), (3, 1, 1033)], "family_only_langs": [1031]}),
+    ("rename-family-name-in-three-languages", fuzz11.SEEDS["passif"], ["-q", "p.gdl", "in.ttf", "out.ttf", "Renamed Font"],
+     {"name_platforms": [(1, 0, 0), (3, 1, 1031), (3, 1, 1033), (3, 1, 1036)], "family_only_langs": [1031, 1036]}),
     ("circular-class-qualified-attr", H + "table(glyph) cA = glyphid(5) {u = cA.u + 1}; cB = glyphid(7); endtable;\ntable(sub) cA > cB; endtable;\n", None, {}),
     ("circular-class-qualified-attr-2", H + "table(glyph) cA = glyphid(5) {u = cA.v; v = u + 1}; cB = glyphid(7); endtable;\ntable(sub) cA > cB; endtable;\n", None, {}),
     # feature tests around whole passes with a Silf version that cannot store pass constraints (they are moved into the rules)
@@ -216,6 +222,17 @@ def special_font(which):
         gdl = (H + "table(glyph) cA = glyphid(1..5) {collision.flags = 1}; cB = glyphid(6..9); endtable;\n"
                "table(pos) pass(1) {CollisionFix = 2} cA {collision.flags = 3} cB; endpass; endtable;\n")
         return gdl, font
+    if which == "piglatin-german-family":
+        # the suite's PigLatin input font (names on platforms 0, 1 and 3) plus a German family-name record under (3,1)
+        try:
+            src = open(os.path.join(common.REPO, "test/GrcRegressionTest/fonts/PigLatinInput.ttf"), "rb").read()
+            tables, d = ttf.parse(src)
+            recs = sorted(ttf.parse_name(tables[b"name"]) + [(3, 1, 1031, 1, "PigLatein".encode("utf-16-be"))], key=lambda r: r[:4])
+            tables[b"name"] = ttf.name_table(recs)
+            font = ttf.assemble(tables, order=[t[0] for t in sorted(d, key=lambda x: x[2])])
+        except Exception:
+            return None, None
+        return H + "table(glyph) cA = glyphid(3..6); cB = glyphid(7..10); endtable;\ntable(sub) cA > cB; endtable;\n", font
     return None, None
 
 
@@ -322,6 +339,12 @@ def run(tier, seed, replay=None):
                 continue
         if opt.get("family"):
             font = ttf.simple_font(40, family=opt["family"])[0]
+        if opt.get("name_platforms"):
+            # name records for several languages under one platform and encoding; optionally only the family name in the extra ones
+            recs = ttf.default_names("Verif", platforms=tuple(opt["name_platforms"]))
+            if opt.get("family_only_langs"):
+                recs = [r for r in recs if not (r[2] in opt["family_only_langs"] and r[3] != 1)]
+            font = ttf.simple_font(40, names=recs)[0]
         res = rn.run_case("corpus-" + name, gdl.encode("latin-1"), font, argv, "scale-corpus" if "ffff" in name or "pass" in name or "unicode-range" in name else "corpus")
         if opt.get("known_stack_overflow") and res["verdict"] in ("asan", "crash", "crash-release") and ("stack-overflow" in str(res["sig"]) or "release-exit" in str(res["sig"]) or res["verdict"] == "crash"):
             # the frame in which the stack runs out varies from run to run: the finding is identified by the recursion
